@@ -2,7 +2,7 @@
 
 from hypothesis import strategies as st
 
-from vlib.core import Outcome, fail, sut, is_raised
+from vlib.core import Outcome, fail, sut, is_raised, Finding
 from vlib import typegen as tg
 from vlib import mat, assign, layout
 from vlib import placement as pl
@@ -13,7 +13,7 @@ LEVEL = "exploration"
 RULE = (
     "generated type expression (reference weight raised; references below arrays and nested structs) x value x input "
     "forms x placement of the original x destination of the copy in {same buffer, other buffer of the same context, "
-    "buffer of another context, no buffer with _context=other context, no buffer at all} x 0..4 later leaf writes on "
+    "buffer of another context, no buffer with _context=other context, no buffer at all} x 0..4 later writes (leaf, whole nested struct/array, strings of any fitting size) on "
     "either side. Oracle: the copy reads back equal to the model and to the original; its extent is disjoint from "
     "the original's; every reference inside the copy resolves (independent layout decoder on the copy's buffer "
     "image) inside the copy's own buffer to a region handed out by allocate(): to the very same offset as in the "
@@ -150,22 +150,28 @@ def run_case(case):
     # --- later writes
     mo = model
     mc = sut(mat.walk, copy, node)
+    unshared = []
     for side, op in case["writes"]:
         op = dict(op)
-        op["kind"] = "leaf"
+        if op["kind"] not in ("leaf", "compound", "wild_string"):
+            op["kind"] = "leaf"
         tgt, tm, other, om, oname = (orig, mo, copy, mc, "copy") if side == "orig" else (copy, mc, orig, mo, "original")
-        leaves = [(p_, s_) for p_, s_ in mat.leaf_paths(spec, tm) if p_]
-        if not leaves:
-            break
-        path, lspec = leaves[op["li"] % len(leaves)]
-        through_ref = any(s_[0] == "d" for s_ in path)
         r = assign.apply_op(op, tgt, node, tm, labels)
+        if isinstance(r, tuple) and r[0] == "skip":
+            continue
         if is_raised(r):
-            return fail("write_raised", f"{side} {path}: {r}", r.key, labels)
+            return fail("write_raised", f"{side} {op['kind']}: {r}", op["kind"] + "|" + r.key, labels)
+        path = r[1]
         labels.add("write_" + side)
+        labels.add("write_kind:" + op["kind"])
+        through_ref = any(s_[0] == "d" for s_ in path)
+        if op["kind"] == "compound" and tg.has_refs(mat.model_get(spec, tm, path)[0]):
+            # the references inside the assigned element were rebound to new objects on this side only
+            unshared.append(list(path))
+        still_shared = shared and not any(path[: len(u)] == u for u in unshared)
         if through_ref:
             labels.add("write_through_reference")
-            if shared:
+            if still_shared:
                 # same referent: the other side sees it too
                 _, nv = mat.model_get(spec, tm, path)
                 try:
@@ -180,7 +186,25 @@ def run_case(case):
             d = tg.first_diff(spec, m, g)
             if d:
                 clause = "write_shows_through" if nm != side else "write_lost"
-                return fail(clause, f"write to {side} at {path} (shared buffer: {shared}); {nm}: {d}", "through_ref" if through_ref else "direct", labels)
+                return fail(clause, f"write to {side} at {path} (shared buffer: {shared}, referent still shared: {still_shared}); {nm}: {d}", "through_ref" if through_ref else "direct", labels)
     tl = labels
     nontrivial = ("ref_inside_array" in tl) or ("struct_2plus_dynamic_fields" in tl) or (tg.has_refs(spec) and "struct_nested" in tl)
     return Outcome(True, labels=sorted(labels), nontrivial=nontrivial)
+
+
+# --------------------------------------------------------------------------
+# open known finding: stale item-offset cache of the constructor handle (known_findings.json)
+# --------------------------------------------------------------------------
+
+
+def _root_dynitems(case):
+    sp = case["type"]
+    return sp["k"] == "array" and tg.is_dynamic(sp["item"])
+
+
+FINDINGS = {
+    "C09-stale-root-handle": Finding(
+        has_feature=lambda case, out: _root_dynitems(case) and any(op["kind"] == "compound" and op["via"] != "handle" for _, op in case["writes"]),
+        neutralise=lambda case, out: dict(case, writes=[[side, dict(op, via="handle") if op["kind"] == "compound" else op] for side, op in case["writes"]]),
+    )
+}
